@@ -498,6 +498,15 @@ def _sync_paged(run, client, op):
         _read_attrs(run, op, pager)
     except Exception as e:  # noqa
         run.sim.ev("raise", op=op["id"], **exc_info(e))
+        if op.get("resume") and "pager" in locals() and hasattr(type(pager), "pages"):
+            # caller behaviour: the error of a page fetch is caught and the SAME pager object is iterated again
+            run.sim.ev("resumed", op=op["id"])
+            try:
+                for item in pager:
+                    run.sim.ev("resumed_item", op=op["id"], value=norm_item(item))
+                run.sim.ev("resumed_end", op=op["id"], outcome="return")
+            except Exception as e2:  # noqa
+                run.sim.ev("resumed_end", op=op["id"], outcome="raise", **exc_info(e2))
         return
     run.sim.ev("return", op=op["id"], value=None, cls=None)
 
@@ -559,6 +568,17 @@ async def _async_paged(run, client, op):
         raise
     except Exception as e:  # noqa
         run.sim.ev("raise", op=op["id"], **exc_info(e))
+        if op.get("resume") and "pager" in locals() and hasattr(type(pager), "pages"):
+            run.sim.ev("resumed", op=op["id"])
+            try:
+                async for item in pager:
+                    run.sim.ev("resumed_item", op=op["id"], value=norm_item(item))
+                run.sim.ev("resumed_end", op=op["id"], outcome="return")
+            except asyncio.CancelledError:
+                run.sim.ev("cancelled", op=op["id"])
+                raise
+            except Exception as e2:  # noqa
+                run.sim.ev("resumed_end", op=op["id"], outcome="raise", **exc_info(e2))
         return
     run.sim.ev("return", op=op["id"], value=None, cls=None)
 
